@@ -15,7 +15,7 @@ ModelCfg ==
      retry_delay |-> RetryDelay, keep_alive |-> -1, max_controls |-> -1,
      evmax |-> EvMax, class_zero |-> <<TRUE, TRUE, TRUE, TRUE, TRUE, TRUE, TRUE, TRUE>>,
      points |-> [i \in 1..NP |-> [ty |-> Pts[i].ty, ix |-> Pts[i].ix, cls |-> Pts[i].cls,
-                                  svar |-> Pts[i].sv, evar |-> Pts[i].ev]],
+                                  svar |-> Pts[i].sv, evar |-> Pts[i].ev, init |-> InitVal(i)]],
      close |-> TRUE,
      app |-> [time |-> FALSE, local |-> FALSE, trouble |-> FALSE, cfg |-> FALSE]]
 
